@@ -150,6 +150,16 @@ func cmdCheck(args []string) {
 			problems = append(problems, "no contract for "+k)
 			continue
 		}
+		if fn != nil && fn.Pkg != nil && ct.File != "" && !strings.HasPrefix(ct.File, "/") {
+			// two packages of the same name (…/ingress/types, …/haproxy/types) give the
+			// same short key to their package-level functions: take the one that
+			// lives where the contract file lives
+			if dir := filepath.Dir(ct.File); !strings.HasSuffix(fn.Pkg.Pkg.Path(), dir) {
+				if alt := p.funcInDir(baseKey(k), dir); alt != nil {
+					fn = alt
+				}
+			}
+		}
 		if fn == nil {
 			missingFuncs[k] = true
 			continue
